@@ -86,10 +86,10 @@ func checkC05(c *Ctx) {
 			Factors: [][2]int{{1, 4}, {1, 2}, {2, 1}, {3, 1}}, Ops: opsC05All, Depth: c.pick(14, 24),
 			Simulate: true, Num: c.pick(800, 30000)}, c.pick(8, 16), fmt.Sprintf("simulated %v", ks))
 	}
-	c.runStoreTraces(c.pick(24, 200), traceGenOpts{Events: c.pick(400, 2000), Kinds: []string{"low", "high", "low", "high", "dense", "sparse", "paged"},
+	c.runStoreTraces(c.pick(24, 100), traceGenOpts{Events: c.pick(400, 2000), Kinds: []string{"low", "high", "low", "high", "dense", "sparse", "paged"},
 		Limits: []int{1, 2, 3, 8, 128, 2048},
 		Ops:    []string{"Add", "Add", "AddWithCount", "AddWithCount", "AddBin", "AddRepeat", "Merge", "Merge", "CopyTo", "Clear", "Reweight", "EncDec", "Proto", "Read"}}, "collapsing stores")
-	c.runStoreTraces(c.pick(12, 100), traceGenOpts{Layout: true, MaxWidth: 60, Events: c.pick(300, 1500), Kinds: []string{"low", "high", "low", "high", "dense", "paged"},
+	c.runStoreTraces(c.pick(12, 50), traceGenOpts{Layout: true, MaxWidth: 60, Events: c.pick(300, 1500), Kinds: []string{"low", "high", "low", "high", "dense", "paged"},
 		Limits: []int{1, 2, 3, 8, 32, 128}, Ops: []string{"Add", "AddWithCount", "AddRepeat", "Merge", "Merge", "CopyTo", "Clear", "Reweight", "EncDec", "Read"}}, "collapsing stores, array layout")
 	// sketch level (last clause of C05): sketches built on collapsing stores hold the folded content and answer every
 	// quantile with a value of a bin the specification allows at that rank on the folded content (retained bins keep
